@@ -32,7 +32,19 @@ def case(args):
         cons_up = (mid, "o")
     else:
         cons_up = (prod, "o")
-    sp.proc(t3.Proc("cons", kind="cat", ins=[("a", [cons_up])], outs=[("o", "{i:a}.cons")], sleep=delay[1]))
+    cons_ins = [("a", [cons_up])]
+    if i % 4 == 3 and not chain:
+        # the consumer has a second in-port: a second streamed input, or an ordinary file
+        paths2 = []
+        for j in range(n):
+            sp.files["side%d.dat" % j] = "side %d\n" % j
+            paths2.append("side%d.dat" % j)
+        s2 = sp.src("src2", paths2)
+        second_streams = rng.random() < 0.6
+        p2 = sp.proc(t3.Proc("prod2", kind="cat", ins=[("a", [(s2, "out")])], outs=[("o", "{i:a}.second")], stream_outs=["o"] if second_streams else []))
+        cons_ins.append(("b", [(p2, "o")]))
+        sp.max += n
+    sp.proc(t3.Proc("cons", kind="cat", ins=cons_ins, outs=[("o", "{i:a}.cons")], sleep=delay[1]))
     model = t3.run_model(sp.text())
     sc = t3.Scratch()
     try:
